@@ -496,7 +496,9 @@ var corruptions = []corruption{
 			return false
 		}
 		arr := resultArr(ex.Responses[i])
-		if len(arr) == 0 {
+		if len(arr) < 2 {
+			// a lone item that names another hash contradicts nothing when the plan fetches no header: it IS
+			// the block's only witness (a consistently different answer, not an inconsistent one)
 			return false
 		}
 		m, ok := arr[0].(map[string]any)
@@ -531,7 +533,12 @@ var corruptions = []corruption{
 
 func runC07(e *core.Env) error {
 	r := e.Rand
-	chain := simnode.NewChain(9, simnode.GenOpts{Salt: 3 + e.Seed%5})
+	chain := simnode.NewChain(9, simnode.GenOpts{Salt: 3 + e.Seed%5, TxsPerBlock: func(num uint64) int {
+		if num%4 == 1 || num%4 == 2 { // neighbouring single-transaction blocks: items that differ in the block only
+			return 1
+		}
+		return 2
+	}})
 	node := simnode.NewNode(chain)
 	defer node.Close()
 	url := node.URL() + "/nocache"
